@@ -543,6 +543,9 @@ def c07(ctx):
     f = walk_cases(ctx, "subset", 1, "subset")
     args = ["walk", "-in", f]
     ctx.absorb(ctx.vh_run(args, timeout=3000), args, label="walk/subset")
+    f = walk_cases(ctx, "plainonce", 2, "plainonce")
+    args = ["walk", "-in", f]
+    ctx.absorb(ctx.vh_run(args, timeout=3000), args, label="walk/plainonce")
     if not quick:
         f = walk_cases(ctx, "plain3", 3, "plain3", sample=ctx.seed % 23)
         args = ["walk", "-in", f]
@@ -553,8 +556,9 @@ def c07(ctx):
              "matcher, explore-all/-fields/-index/-range/-union, recursion with depth limits 1, 2, none, edges, stop-at) x 7 "
              "graphs (maps, lists, scalars, shared/repeated links, link to a scalar block, empty containers, numeric keys); "
              "the walk machine of Traversal.tla gives the visit sequence (path, reason, node) and the load sequence, "
-             "traversal.WalkAdv / WalkMatching must produce exactly these; non-trivial = more than one visit; distinct = "
-             "distinct (graph, selector)",
+             "traversal.WalkAdv / WalkMatching must produce exactly these; the same selectors are walked again with "
+             "LinkVisitOnlyOnce on the graphs that have links (a link first met where the selector does not explore it must "
+             "still be loaded where it does); non-trivial = more than one visit; distinct = distinct (graph, selector, config)",
         assumptions=["selector semantics = the transcription in Selector.tla (the IPLD selector fixtures are absent from the checkout)",
                      "blocks are stored as dag-cbor; linked blocks keep maps in canonical order"],
         exhaustive=True)
@@ -740,27 +744,32 @@ def c09(ctx):
     f = schema_cases(ctx, "mutants", 29 if quick else 5, "mut")
     args = ["schema", "-in", f]
     ctx.absorb(ctx.vh_run(args, timeout=3000), args, label="schema/mutants")
+    # the second typed-node engine: code generated afresh from the working tree, same mutants
+    fconf = schema_cases(ctx, "conforming", 1, "conf")
+    genrun = gen_engine(ctx, fconf)
+    if genrun is not None:
+        args = ["-in", f]
+        ctx.absorb(ctx.vh_run(args, binary=genrun, timeout=3000), args, label="genrun/mutants", binary=genrun)
     return ctx.finish(
         "model_checking",
         rule="cases = every local mutation (dropped / duplicated / renamed-to-unknown / renamed-to-another-name / nulled / "
              "retyped / reordered / extra entry or element / wrong container / out-of-range scalar, at every position) of the "
              "type-level input and of the representation of a hashed sample of the inhabitants of each of the 34 types; "
              "FromType / FromRepr of Schema.tla give the verdict and, when accepted, the typed value; the harness feeds each "
-             "tree to bindnode's builders under recover(): a panic, an acceptance of a non-conforming tree, a refusal of a "
+             "tree to bindnode's builders AND to the builders of code generated afresh by schema/gen/go (the types inside the "
+             "generator's feature set) under recover(): a panic, an acceptance of a non-conforming tree, a refusal of a "
              "conforming one or a node that does not read back as the specified typed value is a disagreement; "
              "non-trivial = every case; distinct = distinct (type, level, input)",
         assumptions=["inputs are fed directly as assembler calls (duplicate keys included)"],
         exhaustive=not quick)
 
 
-@prop("C13")
-def c13(ctx):
+def gen_engine(ctx, fconf):
+    """Generate the catalogue's type systems afresh with schema/gen/go of the working tree, compile them with the runner.
+    Returns the runner binary, or None when the generated package does not compile (recorded as a finding)."""
     import shutil
     import subprocess
     import time
-    quick = ctx.tier == "quick"
-    fconf = schema_cases(ctx, "conforming", 1, "conf")
-    fmut = schema_cases(ctx, "mutants", 29 if quick else 5, "mut")
     src = ctx.harness_src()
     gen_dir = os.path.join(src, "gen")
     # (1) run the generator of the working tree
@@ -783,8 +792,19 @@ def c13(ctx):
             ctx.groups.append({"key": "gengo | GeneratedPackageCompiles | compile-error", "label": "gengo/compile", "args": None,
                                "in_flag": "-in", "group": {"count": 1, "first": [{"case": 0, "step": -1, "target": "gengo",
                                "rule": "GeneratedPackageCompiles", "class": "compile-error", "detail": p.stdout[-3000:]}]}})
-            return ctx.finish("model_checking", rule="generated package failed to compile", exhaustive=False)
+            return None
         raise vlib.MachineryError("runner build failed:\n" + p.stdout[-3000:])
+    return genrun
+
+
+@prop("C13")
+def c13(ctx):
+    quick = ctx.tier == "quick"
+    fconf = schema_cases(ctx, "conforming", 1, "conf")
+    fmut = schema_cases(ctx, "mutants", 29 if quick else 5, "mut")
+    genrun = gen_engine(ctx, fconf)
+    if genrun is None:
+        return ctx.finish("model_checking", rule="generated package failed to compile", exhaustive=False)
     # (3) the same cases as C08 / C09 on the generated prototypes
     for label, f, extra in (("conforming", fconf, ["-roundtrip"]), ("mutants", fmut, [])):
         args = ["-in", f] + extra
